@@ -40,3 +40,18 @@ impl Lexicon<'static> {
         }
     }
 }
+
+#[cfg(kani)]
+impl Lexicon<'static> {
+    /// harness helper: a lexicon without keys whose double array is safe to walk with any text free of NUL bytes
+    /// (256 unused units: the root's offset is 0, no unit carries a matching label)
+    pub(crate) fn verif_no_keys() -> Self {
+        Lexicon {
+            trie: Trie::new_owned(vec![0u32; 256]),
+            word_id_table: WordIdTable::new(&[], 0, 0),
+            word_params: WordParams::new(&[], 0, 0),
+            word_infos: WordInfos::new(&[], 0, 0, false),
+            lex_id: u8::MAX,
+        }
+    }
+}
